@@ -142,8 +142,18 @@ def oracle(ctx):
         base = e2e.fresh_dir()
         d = os.path.join(base, 'src', *['d' * 235 + str(i) for i in range(depth)])
         os.makedirs(d)
+        good = '[' + G.SEC[ty] + ']\n' + ''.join(b + '\n' for b in G.BASE[ty])
+        where = (depth + len(nm)) % 3   # the key comes from the unit file, from a drop-in, or from a drop-in that is a symbolic link
         with open(os.path.join(d, 'bad-unit.' + ty), 'w') as f:
-            f.write('[' + G.SEC[ty] + ']\n' + ''.join(b + '\n' for b in G.BASE[ty]) + nm + '=1\n')
+            f.write(good + (nm + '=1\n' if where == 0 else ''))
+        if where:
+            os.makedirs(os.path.join(d, 'bad-unit.' + ty + '.d'))
+            snippet = os.path.join(base, 'snippets', 'shared.conf') if where == 2 else os.path.join(d, 'bad-unit.' + ty + '.d', '10-x.conf')
+            os.makedirs(os.path.dirname(snippet), exist_ok=True)
+            with open(snippet, 'w') as f:
+                f.write('[' + G.SEC[ty] + ']\n' + nm + '=1\n')
+            if where == 2:
+                os.symlink(snippet, os.path.join(d, 'bad-unit.' + ty + '.d', '10-x.conf'))
         out = []
         for args in (['--dry-run', '--no-kmsg-log'], ['--no-kmsg-log'], ['--no-kmsg-log', '-v']):   # (without --no-kmsg-log the report goes to the kernel log)
             rc, so, se = e2e.run_binary(args + [os.path.join(base, 'out')], os.path.join(base, 'src'))
